@@ -65,8 +65,9 @@ func ExtensionForKey(key cbc.Key) *cbc.Definition {
 	return extensionDefs.list[key]
 }
 
-// Validate ensures the extension map data looks correct and that all keys
-// have been registered globally.
+// Validate ensures the extension map data looks correct, that all keys
+// have been registered globally, and that every value is a valid code
+// accepted by the definition of its key.
 func (em Extensions) Validate() error {
 	err := make(validation.Errors)
 	// Validate key format
@@ -84,6 +85,11 @@ func (em Extensions) Validate() error {
 		kd := ExtensionForKey(k)
 		if kd == nil {
 			err[ks] = errors.New("undefined")
+			continue
+		}
+		// Every value is a code, whatever the definition allows
+		if e := validation.Validate(ev, validation.Required); e != nil {
+			err[ks] = e
 			continue
 		}
 		if len(kd.Values) > 0 && !kd.HasCode(ev) {
